@@ -12,7 +12,8 @@ From Coq Require Import String.
 From Coq Require Import List Arith ZArith.
 Import ListNotations.
 From YP Require Import Base.Str Term.Term Term.Fast Unify.Unify Unify.UnifyGen Lang.Ast Comp.IR Comp.CompileClause Sem.Machine Sem.RunSem
-  Engine.GenMachine Engine.RunGen Engine.BoundedHeap Engine.Bounded Engine.BoundedQuery Engine.RunBoundedM Engine.BoundedMachine.
+  Engine.GenMachine Engine.RunGen Engine.BoundedHeap Engine.Bounded Engine.BoundedQuery Engine.RunBoundedM Engine.BoundedMachine
+  Sem.ExecMono Sem.Native Engine.NativeMono.
 
 (* "for a deeper or infinite search it returns a prefix of that sequence": the sequences at all depths
    are prefixes of each other, and a search that ends within depth n is the same at every deeper m *)
@@ -35,6 +36,14 @@ Theorem C17_machine_answers_prefix_monotone : forall (ir : ir_program) (name : s
   n <= m -> res_le (machine_ans ir name args nq n) (machine_ans ir name args nq m).
 Proof. exact machine_ans_mono. Qed.
 Print Assumptions C17_machine_answers_prefix_monotone.
+
+(* ... and for the full YP.query of Sem/Native.v: dynamic facts, registered Python predicates (arbitrary answer functions
+   that may raise; they do not depend on the depth) and the loaded script.  le_b r1 r2: r1 ended by an exception after a
+   prefix of r2's answers, or r2 = r1 *)
+Theorem C17_engine_with_python_predicates_prefix_monotone : forall (w : world) n m, n <= m ->
+  forall name args s, le_b (nquery n w name args s) (nquery m w name args s).
+Proof. exact nquery_depth_mono. Qed.
+Print Assumptions C17_engine_with_python_predicates_prefix_monotone.
 
 (* the two result theorems below, instantiated with the machine's queries: no hypothesis on the query is left *)
 Theorem C17_machine_result_is_prefix : forall (ir : ir_program) (name : str) (args : list term) (nq : nat) (B : Type)
